@@ -12,7 +12,7 @@ from vf.runner import Job
 F = 'include/yaclib/async/detail/wait_impl.hpp'
 F_SE = 'include/yaclib/algo/detail/shared_event.hpp'
 
-TRUSTED = ['BaseCore::SetCallbackImpl / ResetImpl (unit base_core), CallCallback::Impl = Sub(1) (unit event), AtomicCounter::SubEqual (unit event), MutexEvent / AtomicEvent Wait / Set (unit event)']
+TRUSTED = ['BaseCore::SetCallbackImpl / ResetImpl (unit base_core), CallCallback::Impl = Sub(1) (unit event), AtomicCounter::SubEqual (unit event), MutexEvent Wait / Set (unit event; AtomicEvent is not compiled in this tree: YACLIB_FUTEX is fixed to 0)']
 DROPPED = ['the immediately-invoked lambda computing wait_count and the reset lambda are replaced by RANGE_SET / RANGE_RESET stubs carrying the range contract',
            'the event lives on the waiter\'s stack: "nobody touches it after return" is the ghost condition holders == 0 at every return']
 ASSUMPTIONS = ['every listed future completes at most once and, if its callback is attached, signals the event exactly once (C01, C16 CallCallback)']
